@@ -3,6 +3,9 @@ CONSTANTS
   SaveSameDirFirst = TRUE
   SeedAllGoverning = TRUE
   RemoveByIdentity = TRUE
+  QueueKept = TRUE
+  ManifestWins = TRUE
+  ForgetUnlinked = TRUE
   Export = FALSE
 INVARIANT C03_ExactCover
 INVARIANT C10_NothingBeforeSave
